@@ -15,8 +15,12 @@ import (
 
 	redigo "github.com/garyburd/redigo/redis"
 
+	conf "github.com/alibaba/RedisShake/redis-shake/configure"
+	"github.com/alibaba/RedisShake/redis-shake/dbSync"
 	"github.com/alibaba/RedisShake/redis-shake/dbSync/slot"
 	"github.com/alibaba/RedisShake/redis-shake/dbSync/slotsupervisor"
+
+	"verif/harness/mredis"
 )
 
 type svCase struct {
@@ -26,10 +30,11 @@ type svCase struct {
 }
 
 type svIn struct {
-	Seed       int64    `json:"seed"`
-	MaxRetries int      `json:"max_retries"`
-	Cases      []svCase `json:"cases"`
-	Orders     int      `json:"orders"` // how many node-name orderings per scenario
+	Seed         int64    `json:"seed"`
+	MaxRetries   int      `json:"max_retries"`
+	Cases        []svCase `json:"cases"`
+	Orders       int      `json:"orders"`        // how many node-name orderings per scenario
+	SyncerRounds int      `json:"syncer_rounds"` // how often to run the syncer-level re-discovery scenario (real TCP nodes, two fail-overs)
 }
 
 // credentials put into the supervised node (the secrets family sets its sentinels here)
@@ -39,14 +44,31 @@ type scriptConn struct {
 	do func() (interface{}, error)
 }
 
-func (c *scriptConn) Close() error                                       { return nil }
-func (c *scriptConn) Err() error                                         { return nil }
+func (c *scriptConn) Close() error                                         { return nil }
+func (c *scriptConn) Err() error                                           { return nil }
 func (c *scriptConn) Do(cmd string, a ...interface{}) (interface{}, error) { return c.do() }
-func (c *scriptConn) Send(string, ...interface{}) error                  { return errors.New("unexpected Send") }
-func (c *scriptConn) Flush() error                                       { return nil }
-func (c *scriptConn) Receive() (interface{}, error)                      { return nil, errors.New("unexpected Receive") }
+func (c *scriptConn) Send(string, ...interface{}) error                    { return errors.New("unexpected Send") }
+func (c *scriptConn) Flush() error                                         { return nil }
+func (c *scriptConn) Receive() (interface{}, error)                        { return nil, errors.New("unexpected Receive") }
 
 var _ redigo.Conn = (*scriptConn)(nil)
+
+func indexOf(l []string, x string) int {
+	for i, y := range l {
+		if y == x {
+			return i
+		}
+	}
+	return -1
+}
+
+func indexesOf(l []string, xs []string) []int {
+	out := []int{}
+	for _, x := range xs {
+		out = append(out, indexOf(l, x)+1)
+	}
+	return out
+}
 
 func infoText(role string, rnd *rand.Rand) []byte {
 	// realistic INFO replication: section header, CRLF lines, other fields before / after the role
@@ -214,6 +236,53 @@ func svRun(in []byte) (interface{}, error) {
 		}
 	}
 	wg.Wait()
+	// ---- the syncer's own step: updateSlotTopology over real TCP nodes through two fail-overs (A -> B, then back to A);
+	// after each re-discovery the syncer's node must be the reporting master plus every other known node exactly once
+	if cfg.SyncerRounds > 0 {
+		conf.Options.SourceType = conf.RedisTypeCluster
+		for round := 0; round < cfg.SyncerRounds; round++ {
+			srv := []*mredis.Server{mredis.New(mredis.Options{Role: "master"}), mredis.New(mredis.Options{Role: "slave"}), mredis.New(mredis.Options{Role: "slave"})}
+			var addrs []string
+			for _, s := range srv {
+				a, err := s.Listen()
+				if err != nil {
+					return nil, err
+				}
+				addrs = append(addrs, a)
+			}
+			node := &slot.SyncNode{Id: round, Source: addrs[0], Slaves: []string{addrs[1], addrs[2]}, Target: []string{"127.0.0.1:1"}, SlotLeftBoundary: 0, SlotRightBoundary: 100}
+			ds := dbSync.VerifNewDbSyncer(node, false, "?", -1, 0, "ckpt", 4)
+			master := 0
+			for step, next := range []int{1 + round%2, 0, 2 - round%2} {
+				srv[master].SetRole("slave")
+				srv[next].SetRole("master")
+				master = next
+				ab, pan := runAbortableOwn(func() { ds.VerifUpdateSlotTopology() })
+				got := ds.VerifNode()
+				want := []string{}
+				for i, a := range addrs {
+					if i != master {
+						want = append(want, a)
+					}
+				}
+				gs := append([]string{}, got.Slaves...)
+				sort.Strings(gs)
+				sort.Strings(want)
+				evals++
+				nontrivial++
+				if ab != nil || pan != "" || got.Source != addrs[master] || fmt.Sprint(gs) != fmt.Sprint(want) {
+					ms = append(ms, Mismatch{Case: 100000 + round, Step: step, Kind: "L1", Detail: fmt.Sprintf(
+						"syncer re-discovery after fail-over %d: node %d reports master; the syncer's node is source node %d with replicas %v (abort %v %s), contract says source node %d and every other known node once",
+						step+1, master+1, indexOf(addrs, got.Source)+1, indexesOf(addrs, got.Slaves), ab != nil, pan, master+1),
+						Extra: map[string]interface{}{"scn": [][]string{}, "masters": 1, "first": 1, "took_s": 0.0, "syncer": true}})
+				}
+			}
+			for _, s := range srv {
+				s.Close()
+			}
+		}
+		conf.Options.SourceType = "standalone"
+	}
 	return map[string]interface{}{"evaluations": evals, "nontrivial": nontrivial, "mismatches": ms}, nil
 }
 
